@@ -1732,6 +1732,18 @@ case_unpackt(void)
 		ob_puts(g_rec.tr_buf);
 }
 
+/* SIZES: sizeof_message of every descriptor of the schema (the allocation-level model needs them to print sizes) */
+static void
+case_sizes(void)
+{
+	unsigned d;
+
+	expect_eol();
+	ob_puts("S");
+	for (d = 0; d < g_nmsgs; d++)
+		ob_sp_u64((uint64_t) g_desc[d].sizeof_message);
+}
+
 static void
 case_check(void)
 {
@@ -1871,6 +1883,8 @@ run_case(char *line)
 		case_unpacka();
 	else if (!strcmp(kw, "UNPACKT"))
 		case_unpackt();
+	else if (!strcmp(kw, "SIZES"))
+		case_sizes();
 	else if (!strcmp(kw, "CHECK"))
 		case_check();
 	else if (!strcmp(kw, "BUF"))
